@@ -10,6 +10,7 @@ AgVerif.Gen.ValueTypes.dispatch.   Spec: AgVerif.Spec.EncodedValue (DEX format d
 import AgVerif.Proof.EncodedValue
 import AgVerif.Proof.EncodedValuePrint
 import AgVerif.Proof.EncodedValueCompose
+import AgVerif.Proof.EncodedValueString
 namespace AgVerif.C04
 open AgVerif.EncodedValue AgVerif.Gen.ValueTypes
 open AgVerif.Spec.EncodedValue (le sext SValue Encodes Elem Pools scalar staticInit javaLiteralValue assignable JVal
@@ -151,6 +152,27 @@ theorem static_init_print (P : Pools) (item : List Nat) (parts : List (List Nat 
       (printInit proto (embed P p.2)).bind (readBack proto) = some den :=
   static_init_print_aux P item parts rest n i hi hl hv hparts hn p hp proto den hd hm
 
+/-! ### String initialisers
+`printStringInit` models `'"%s"' % str(value).encode("unicode-escape").decode("ascii")`.  Java's reading is
+`AgVerif.Spec.JavaLex.javaLex` (JLS 3.3 unicode translation + 3.10.5/3.10.7 string literals, C23's specification). -/
+
+/-- For every string made of `JavaSafe` code points (printable ASCII except `"` and `'`, backslash,
+    TAB/LF/CR, all of U+0100..U+FFFF) the printed String initialiser is one Java string literal that
+    denotes exactly the string (it coincides there with the literal of writer.string() as verified for C23; frozen copy AgVerif.C04Ref). -/
+theorem print_denotes_string_safe (s : List Nat) (h : ∀ c ∈ s, JavaSafe c) :
+    AgVerif.Spec.JavaLex.javaLex (AgVerif.Spec.JavaLex.utf16 (printStringInit s))
+      = some (AgVerif.Spec.JavaLex.utf16 s) :=
+  print_string_safe s h
+
+/-- Outside that set the full statement is FALSE of the code (known finding
+    `string-initialiser-python-unicode-escape`): a double quote is printed unescaped and U+00E9 is
+    printed `\xe9`; neither text is a Java literal of the string. -/
+theorem string_initialiser_refuted :
+    AgVerif.Spec.JavaLex.javaLex (AgVerif.Spec.JavaLex.utf16 (printStringInit [0x61, 0x22, 0x62]))
+      ≠ some (AgVerif.Spec.JavaLex.utf16 [0x61, 0x22, 0x62]) ∧
+    AgVerif.Spec.JavaLex.javaLex (AgVerif.Spec.JavaLex.utf16 (printStringInit [0xe9])) = none := by
+  decide
+
 /-! ### truncated input, in general -/
 
 /-- an encoded_array announcing more elements than are present (any well-formed elements, any
@@ -204,6 +226,9 @@ example :
   · exact Encodes.scalar 0x1f 1 [] _ (by decide) (by decide) (by decide) rfl
 example : (printInit "J" (.int 6 (-9223372036854775808))).bind (readBack "J")
     = some (.num (-9223372036854775808)) := by decide
+example : JavaSafe 0x5c ∧ JavaSafe 0x4e2d ∧ printStringInit [0x5c, 0x4e2d, 0x09]
+    = [0x22, 0x5c, 0x5c, 0x5c, 0x75, 0x34, 0x65, 0x32, 0x64, 0x5c, 0x74, 0x22] := by
+  refine ⟨by unfold JavaSafe; omega, by unfold JavaSafe; omega, by decide⟩
 example : printInit "F" (.float 0x7fc00001) = some "Float.NaN".toList ∧
     printInit "D" (.double 0xfff0000000000000) = some "Double.NEGATIVE_INFINITY".toList ∧
     printInit "F" (.float 0x3f800000) = none := by decide
